@@ -189,6 +189,16 @@ class EVPN(NLRI):
             }
         return {"type": esi_type, "value": esi_value}
 
+    @staticmethod
+    def construct_mac(mac):
+        """
+        '00-11-22-33-44-55' -> 6 octets
+        """
+        groups = mac.split('-')
+        if len(groups) != 6:
+            raise ValueError('a MAC address has six groups of two hex digits: %r' % mac)
+        return b''.join([struct.pack('!B', int(i, 16)) for i in groups])
+
     @classmethod
     def construct_esi(cls, esi_data):
         esi_type, esi_value = esi_data["type"], esi_data["value"]
@@ -203,21 +213,21 @@ class EVPN(NLRI):
 
         elif esi_type == bgp_cons.ESI_BGPNLRI_EVPN_TYPE_1:
             ce_mac_addr, ce_port_key = esi_value["ce_mac_addr"], esi_value["ce_port_key"]
-            ce_mac_hex = b''.join([struct.pack('!B', (int(i, 16))) for i in ce_mac_addr.split("-")])
+            ce_mac_hex = cls.construct_mac(ce_mac_addr)
             # ce_port_hex = ce_port_key.to_bytes(2, byteorder='big')
             ce_port_hex = struct.pack('!H', ce_port_key)
             esi_data_hex = b'\x01' + ce_mac_hex + ce_port_hex + b'\x00'
 
         elif esi_type == bgp_cons.ESI_BGPNLRI_EVPN_TYPE_2:
             rb_mac_addr, rb_priority = esi_value["rb_mac_addr"], esi_value["rb_priority"]
-            rb_mac_hex = b''.join([struct.pack('!B', (int(i, 16))) for i in rb_mac_addr.split("-")])
+            rb_mac_hex = cls.construct_mac(rb_mac_addr)
             # rb_priority_hex = rb_priority.to_bytes(2, byteorder='big')
             rb_priority_hex = struct.pack('!H', rb_priority)
             esi_data_hex = b'\x02' + rb_mac_hex + rb_priority_hex + b'\x00'
 
         elif esi_type == bgp_cons.ESI_BGPNLRI_EVPN_TYPE_3:
             sys_mac_addr, ld_value = esi_value["sys_mac_addr"], esi_value["ld_value"]
-            sys_mac_hex = b''.join([struct.pack('!B', (int(i, 16))) for i in sys_mac_addr.split("-")])
+            sys_mac_hex = cls.construct_mac(sys_mac_addr)
             # ld_value_hex = ld_value.to_bytes(3, byteorder='big')
             # 6-octet system MAC followed by a 3-octet local discriminator (RFC 7432 section 5)
             if not 0 <= ld_value <= 0xffffff:
@@ -342,7 +352,7 @@ class MacIPAdvertisment(EVPN):
         # ethernet tag
         value_hex += struct.pack('!I', value['eth_tag_id'])
         # mac address len and address
-        mac_hex = b''.join([struct.pack('!B', (int(i, 16))) for i in value['mac'].split("-")])
+        mac_hex = cls.construct_mac(value['mac'])
         value_hex += struct.pack('!B', len(mac_hex) * 8) + mac_hex
         # ip address len and address
         if value.get('ip'):
